@@ -34,13 +34,24 @@ RULE = ("direct: for every struct of the API tables and every field, the field a
         "spelling of NUMBER_SPELLINGS (leading/trailing dot, signs, underscores, exponent forms, hex/octal/binary, "
         "leading zeros, sexagesimal, huge/tiny exponents, 64-bit boundaries) as a top-level value, inside arrays and "
         "objects, as provider input echoed back, under toJSON/toString/interpolation and merged over an import, "
-        "through eval.EvalEnvironment/CheckEnvironment.  non-trivial = a non-nil original / any raw document; distinct by case content")
+        "through eval.EvalEnvironment/CheckEnvironment; size families at 2^k-1, 2^k, 2^k+1 (string payload / number text / "
+        "map key length up to 8 KiB quick, 128 KiB thorough; array elements up to 512 quick, 8 Ki thorough; object keys up to 512 / 2 Ki (programs 256 / 1 Ki: the model's maps are quadratic); as "
+        "direct trees and as programs).  Every document is also decoded into values that are NOT fresh: once more into the "
+        "object just decoded, into a copy of the original, and into a value of the same shape with every string / number / "
+        "integer changed (all must give what a fresh decode gives, the last two up to nil-vs-empty).  A panic, fatal crash or "
+        "hang of json.Marshal / json.Unmarshal is a failing case (for programs a second process evaluates alone to tell the "
+        "evaluator from the JSON layer).  non-trivial = a non-nil original / any raw document; distinct by case content")
 ASSUMPTIONS = [
     "Go values are observed through a reflection dump written for this check (exported fields, nil vs empty, dynamic "
     "types of interfaces, exact bytes), not through encoding/json",
     "the evaluator only stores non-nil slices/maps in Value.Value (it builds them with make: eval/value.go export); "
     "a nil slice inside the interface is outside 'well-formed'",
     "schema.Schema is marshalled through a pointer (every use in the API types is *Schema), so its MarshalJSON applies",
+    "equal = the same Go value, except that a non-nil EMPTY slice/map in one of the 13 omitempty fields where nil and empty "
+    "mean the same to every reader (len / range / index / lookup only: Environment.Exprs/Properties, "
+    "EvaluatedExecutionContext.Properties, Expr.KeyRanges, Schema.$defs/anyOf/oneOf/prefixItems/properties/enum/required/"
+    "dependentRequired/examples) may come back nil (Corr/C18.v nilify_h; theorem C18_roundtrip_tidy); in the 5 fields whose "
+    "being nil is information (Expr.List/Object/Interpolate/Symbol, Interpolation.Value) it may not: known finding",
     "the text layer of encoding/json (escaping, whitespace, float formatting) is exercised, not modelled: a float64 "
     "matches a float64 whatever its digits; JSON documents with duplicate keys for struct fields, keys differing "
     "from the tag only by case, and numbers outside float64 range are not generated for the raw stream",
@@ -667,6 +678,44 @@ def zero_programs():
                "main": "imports: [mid, base]\nvalues: {w: [\"${t}\", \"${u}\"], x: \"${imports.mid}\"}\n", "check": False}
 
 
+def pow2_sizes(limit):
+    out = []
+    k = 0
+    while (1 << k) <= limit:
+        for n in ((1 << k) - 1, 1 << k, (1 << k) + 1):
+            if 0 <= n <= limit + 1 and n not in out:
+                out.append(n)
+        k += 1
+    return sorted(out)
+
+
+def size_cases(thorough):
+    lim_len = (1 << 17) if thorough else (1 << 13)
+    lim_cnt = (1 << 13) if thorough else (1 << 9)
+    # the model's maps are association lists (sorted_keys / map_of_entries are quadratic: 8 Ki keys take 3 minutes per line),
+    # so objects stop at 2 Ki keys (programs: 1 Ki, their result carries the keys five times); arrays go on to 8 Ki
+    lim_obj = (1 << 11) if thorough else (1 << 9)
+    lim_prog = (1 << 10) if thorough else (1 << 8)
+    for n in pow2_sizes(lim_len):
+        txt = ("lorem ipsum \u20ac " * (n // 14 + 1))[:n]
+        yield {"kind": "direct", "ty": "Value", "d": value(A("str", S(txt)), n % 2 == 1, False), "fam": "size-string"}
+        digits = ("1234567890" * (n // 10 + 1))[:n] or "0"
+        yield {"kind": "direct", "ty": "Value", "d": value(A("num", N(digits.lstrip("0") or "0"))), "fam": "size-number"}
+        yield {"kind": "direct", "ty": "Value", "d": value(A(["map", TV], {"m": [[("k" * n).encode().hex(), value(A("bool", True))]]})),
+               "fam": "size-key"}
+        if n <= 4097 or thorough:
+            yield {"kind": "eval", "fam": "size", "check": False, "values": {"s": "x" * n, "n": Raw(digits.lstrip("0") or "0")}}
+    for n in pow2_sizes(lim_cnt):
+        yield {"kind": "direct", "ty": "Value", "fam": "size-array",
+               "d": value(A(["slice", TV], {"l": [value(A("num", N(str(i)))) for i in range(n)]}))}
+        if n <= lim_obj + 1:
+            yield {"kind": "direct", "ty": "Value", "fam": "size-object",
+                   "d": value(A(["map", TV], {"m": sorted([[("k%d" % i).encode().hex(), value(None)] for i in range(n)])}))}
+        if n <= lim_prog + 1:
+            yield {"kind": "eval", "fam": "size", "check": False, "values": {"l": [Raw(str(i)) for i in range(n)],
+                                                                            "o": {"k%d" % i: "" for i in range(n)}}}
+
+
 REGRESSION = [
     {"kind": "eval", "main": "values: {a: .inf}\n", "check": False},
     {"kind": "eval", "main": "values: {a: [1, -.INF, .NaN]}\n", "check": False},
@@ -729,6 +778,11 @@ def gen(rng, tier):
         direct("Expr", with_fields("Expr", Range=rng_(), Builtin={"p": with_fields(
             "BuiltinExpr", Name=S(b"fn::toJSON"), NameRange=rng_(), ArgSchema={"p": schema_flag("Always")},
             Arg=with_fields("Expr", Range=rng_(), Literal=a))}), "field")
+
+    # --- sizes: powers of two +- 1 (length of a string payload / of a number text / of a map key, number of array
+    #     elements / of object keys), as direct trees and as programs ------------------------------------------------
+    for c in size_cases(thorough):
+        cases.append(c)
 
     # --- random typed trees ---------------------------------------------------------------------------------------
     roots = [("Value", 5), ("Value", 3), ("Schema", 4), ("Expr", 4), ("Environment", 5)]
@@ -804,31 +858,57 @@ def line(c, o):
         return "(line-error %s)" % atom(repr(e)[:80])
 
 
+STATS = {"eval:evaluator-died": 0, "json-layer-died": 0}
+
+
+def _b(o, key):
+    return "t" if o.get(key) is True else "f"
+
+
+def crash_line(c, o):
+    """json.Marshal / json.Unmarshal panicked, killed the process or hung: a failing line that carries the input."""
+    STATS["json-layer-died"] += 1
+    if c["kind"] == "raw":
+        return "(crash raw %s)" % ty_sx(["named", c["ty"]])
+    if c["kind"] == "direct":
+        return "(crash direct %s %s)" % (ty_sx(["named", c["ty"]]), desc_sx(c["d"]))
+    return "(crash eval (named 'Environment) %s)" % desc_sx(o["orig"]["v"])
+
+
 def _line(c, o):
-    if c["kind"] == "eval" and ("crash" in o or "panic" in o):
-        return None     # a crashing evaluation returns nothing to serialise (evaluator totality is C07's subject)
+    k = c["kind"]
+    if k == "eval" and ("crash" in o or "panic" in o):
+        # the process died (fatal stack overflow / hang) somewhere between evaluation and the second json.Marshal.
+        # Evaluate alone in a fresh process: if that dies too, the evaluator is at fault (C07's subject; the case stays
+        # unjudged and the driver reports it); if it answers, the JSON layer killed the process: a failure of "everything
+        # the evaluator can return is serialisable" with the program as replay.
+        main, envs = program_text(c)
+        e = C.run_impl(ID, [{"op": "evalonly", "main": main, "envs": envs, "check": bool(c.get("check")), "id": 0}],
+                       batch=1, timeout=120)[0]
+        if "crash" in e or "panic" in e or "orig" not in e:
+            STATS["eval:evaluator-died"] += 1
+            return None
+        o["crash_followup"] = "evaluation alone succeeds"
+        return crash_line(c, e)
     if "crash" in o or "panic" in o:
-        # the handler itself never panics on a well-formed case: treat as a failed marshal so that the oracle sees it
-        if c["kind"] == "raw":
-            return "(raw %s %s err err)" % (ty_sx(["named", c["ty"]]), jtree_sx(parse_json(c["json"])))
-        if c["kind"] == "direct":
-            return "(round direct %s %s err err err)" % (ty_sx(["named", c["ty"]]), desc_sx(c["d"]))
-        return None
+        return crash_line(c, o)
     if "badcase" in o:
         return "(badcase)"
-    k = c["kind"]
+    if "rt_panic" in o:
+        return crash_line(c, o)
     if k == "raw":
-        return "(raw %s %s %s %s)" % (ty_sx(["named", c["ty"]]), jtree_sx(parse_json(c["json"])), opt_desc(o, "rt"),
-                                      opt_json(o, "j2"))
+        return "(raw %s %s %s %s %s)" % (ty_sx(["named", c["ty"]]), jtree_sx(parse_json(c["json"])), opt_desc(o, "rt"),
+                                         opt_json(o, "j2"), _b(o, "again") if isinstance(o.get("rt"), dict) else "t")
     if k == "direct":
         if o.get("orig", {}).get("v") != c["d"]:
             return "(harness-dump-differs)"
-        return "(round direct %s %s %s %s %s)" % (ty_sx(["named", c["ty"]]), desc_sx(c["d"]), opt_json(o, "j1"),
-                                                  opt_desc(o, "rt"), opt_json(o, "j2"))
+        return "(round direct %s %s %s %s %s %s %s)" % (ty_sx(["named", c["ty"]]), desc_sx(c["d"]), opt_json(o, "j1"),
+                                                        opt_desc(o, "rt"), opt_json(o, "j2"), _b(o, "again"), _b(o, "into_orig"))
     if "skip" in o:
         return None
-    return "(round eval (named 'Environment) %s %s %s %s)" % (desc_sx(o["orig"]["v"]), opt_json(o, "j1"),
-                                                              opt_desc(o, "rt"), opt_json(o, "j2"))
+    return "(round eval (named 'Environment) %s %s %s %s %s %s)" % (desc_sx(o["orig"]["v"]), opt_json(o, "j1"),
+                                                                    opt_desc(o, "rt"), opt_json(o, "j2"),
+                                                                    _b(o, "again"), _b(o, "into_orig"))
 
 
 def describe(c):
@@ -919,10 +999,37 @@ def distribution(cases, r):
         else:
             k = "eval%s:%s" % ("-" + c["fam"] if c.get("fam") else "",
                                o.get("skip") and "skipped-" + o["skip"] or ("marshal-error" if o.get("j1") is None else "ok"))
-        if "crash" in o or "panic" in o:
-            k = c["kind"] + ":crash"
+        if "crash" in o or "panic" in o or "rt_panic" in o:
+            k = c["kind"] + ":CRASH"
         d[k] = d.get(k, 0) + 1
+    lines = r.get("lines", {})
+    d["ESCAPE:skipped:program-does-not-load-or-evaluator-returns-nil"] = sum(
+        1 for c, o in zip(cases, r["obs"]) if c["kind"] == "eval" and "skip" in o)
+    d["ESCAPE:skipped:evaluator-died(unjudged: reported by the driver)"] = sum(
+        1 for i, (c, o) in enumerate(zip(cases, r["obs"])) if c["kind"] == "eval" and ("crash" in o or "panic" in o) and i not in lines)
+    d["JUDGED:json-layer-crash-as-failure"] = sum(1 for i, l in lines.items() if l.startswith("(crash"))
+    d["ESCAPE:excused:known-C18-empty-omitted(lossy fields)+C18-non-utf8"] = len(r.get("spec_fail_known", []))
+    d["ESCAPE:outside:direct-trees-invalid-number-text(correspondence+crash only)"] = sum(
+        1 for c in cases if c["kind"] == "direct" and _has_bad_number(c["d"]))
+    d["ESCAPE:outside:direct-trees-ill-formed-by-construction(correspondence+crash only)"] = sum(
+        1 for c in cases if c["kind"] == "direct" and c.get("fam") == "illformed") + 2     # + the two non-canonical boolean schemas
     return d
+
+
+JSON_NUMBER = re.compile(r"^-?(0|[1-9][0-9]*)(\.[0-9]+)?([eE][+-]?[0-9]+)?$")
+
+
+def _has_bad_number(d):
+    """a json.Number whose text is not a JSON number somewhere in the descriptor (Corr/C18.v valid_numbers is what
+    decides; this only COUNTS the escape hatch for the evidence)"""
+    if isinstance(d, dict):
+        if "n" in d:
+            t = bytes.fromhex(d["n"]).decode("utf-8", "replace")
+            return t != "" and not JSON_NUMBER.match(t)
+        return any(_has_bad_number(v) for v in d.values())
+    if isinstance(d, list):
+        return any(_has_bad_number(v) for v in d)
+    return False
 
 
 def search(rng, info):
